@@ -7,3 +7,11 @@ from sa import renames
 t = renames.generate(Path("/repo/src/irispie"))
 Path("/verif/sa/refnames.json").write_text(json.dumps(t, separators=(",", ":"), sort_keys=True))
 print(sum(len(v) for v in t.values()), "functions with locals in", len(t), "modules;", Path("/verif/sa/refnames.json").stat().st_size // 1024, "KiB")
+
+if "--check" in sys.argv:
+    # the table must describe the current tree exactly (run after regenerating; used before committing)
+    cur = renames.generate(Path("/repo/src/irispie"))
+    ref = json.loads(Path("/verif/sa/refnames.json").read_text())
+    diff = [(m, q) for m in set(cur) | set(ref) for q in set(cur.get(m, {})) | set(ref.get(m, {})) if cur.get(m, {}).get(q) != ref.get(m, {}).get(q)]
+    print("reference differs from /repo in", len(diff), "functions", diff[:5])
+    sys.exit(1 if diff else 0)
